@@ -43,6 +43,32 @@ theorem Fuel.forIn_eq_of {σ : Type} (body : Unit → σ → Id (ForInStep σ)) 
     | done s' => rfl
     | yield s' => exact ih s'
 
+/-- The same in the `Option` monad, for a body that never fails. -/
+theorem Fuel.forIn_eq_of_opt {σ : Type} (body : Unit → σ → Option (ForInStep σ)) (F : Nat → σ → σ)
+    (h0 : ∀ s, F 0 s = s)
+    (hstep : ∀ n s, match body () s with
+      | some (.done s') => F (n + 1) s = s'
+      | some (.yield s') => F (n + 1) s = F n s'
+      | none => False) :
+    ∀ n s, Fuel.forIn body n s = some (F n s) := by
+  intro n
+  induction n with
+  | zero => intro s; simp only [Fuel.forIn, h0]; rfl
+  | succ n ih =>
+    intro s
+    have h := hstep n s
+    simp only [Fuel.forIn]
+    show (body () s >>= fun x => match x with
+      | .done s' => pure s'
+      | .yield s' => Fuel.forIn body n s') = _
+    cases hb : body () s with
+    | none => rw [hb] at h; exact h.elim
+    | some x =>
+      rw [hb] at h
+      cases x with
+      | done s' => simp only [] at h; rw [h]; rfl
+      | yield s' => simp only [] at h; rw [h]; exact ih s'
+
 /-- A `for` over a list whose body never breaks is a left fold. -/
 theorem forIn_eq_foldl_of {γ σ : Type} (l : List γ) (init : σ) (body : γ → σ → Id (ForInStep σ)) (g : σ → γ → σ)
     (h : ∀ a b, body a b = pure (ForInStep.yield (g b a))) :
